@@ -513,7 +513,7 @@ func (x *Exec) scanStaticCallee(st *State, fr *Frame, fn *ssa.Function, binds []
 		}
 		return
 	}
-	inline := (c != nil && c.Inline) || fn.Parent() != nil || (fn.Synthetic != "" && len(fn.Blocks) > 0)
+	inline := (c != nil && c.Inline) || fn.Parent() != nil || (fn.Synthetic != "" && len(fn.Blocks) > 0) || (c == nil && x.autoInline(fr, fn))
 	if inline {
 		// function-valued arguments (callbacks) are bound so that the callee's
 		// calls through its parameters are scanned too
